@@ -24,7 +24,7 @@ RULE = (
     "mask; small max_functions; NaN at evaluation k (TOO_FEW_REALIZATIONS); user abort at evaluation k; nelder-mead; "
     "differential_evolution(seed)} is run in-process and as external/<method>: evaluator request bytes, result bytes and "
     "exit code must be equal. (b) crash points: with M messages exchanged in the baseline run, for EVERY m <= M the child is "
-    "killed (SIGKILL / exit 3) before it sends request m / after it receives answer m, and the optimizer inside the child "
+    "killed (SIGKILL / SIGTERM / exit 3) before it sends request m / after it receives answer m, and the optimizer inside the child "
     "raises at m (error-report path). (c) the parent's evaluator raises ValueError at EACH evaluation. (d) one 'pending' "
     "poll (read or write returning not-ready) at every message index on either side (deviation bound 1) must not change "
     "the trace. Oracle: after child death/error the step ends with an exception or a non-success exit code, never "
@@ -304,7 +304,8 @@ def shards(tier: str, seed: int) -> list[dict[str, Any]]:
     crash_configs = ["slsqp"] if quick else ["slsqp", "slsqp:constraints"]
     for name in crash_configs:
         m_total = message_count(name)
-        kinds = ["kill-before", "exit3-after", "raise"] if quick else ["kill-before", "kill-after", "exit3-before", "exit3-after", "raise"]
+        kinds = (["kill-before", "exit3-after", "term-after", "raise"] if quick else
+                 ["kill-before", "kill-after", "exit3-before", "exit3-after", "term-before", "term-after", "raise"])
         for m in range(m_total):
             for fk in kinds:
                 if fk == "raise" and m < 2:
